@@ -41,6 +41,7 @@ def zmax(xs):
 
 def h(cfg):
     P = sched.gen_problem(cfg)
+    cfg = P.cfg
     d = sched.describe(P)
     outside = cfg.get('outside') and choose('outside', 2)
     w, tasks = sched.build_wbs(P)
